@@ -503,7 +503,7 @@ func (c18) Check(out *sim.Outcome, ri *RunInfo) []Violation {
 						if s.at < it.StartAt && s.at+ttl > it.EndAt {
 							fresh = append(fresh, s.val)
 						}
-						if s.at <= it.EndAt && s.at+ttl > it.StartAt {
+						if s.at <= it.EndAt && s.at+ttl >= it.StartAt {
 							acceptable = append(acceptable, s.val)
 						}
 					}
@@ -514,7 +514,7 @@ func (c18) Check(out *sim.Outcome, ri *RunInfo) []Violation {
 							if it2.Err == nil && it2.IP != "" && it2.EndAt < it.StartAt && it2.EndAt+ttl > it.EndAt && it2.DialsDuring > 0 {
 								fresh = append(fresh, it2.IP)
 							}
-							if it2.Err == nil && it2.IP != "" && it2.EndAt <= it.EndAt && it2.EndAt+ttl > it.StartAt && it2.DialsDuring > 0 {
+							if it2.Err == nil && it2.IP != "" && it2.EndAt <= it.EndAt && it2.EndAt+ttl >= it.StartAt && it2.DialsDuring > 0 {
 								acceptable = append(acceptable, it2.IP)
 							}
 						}
@@ -550,7 +550,17 @@ func (c18) Check(out *sim.Outcome, ri *RunInfo) []Violation {
 				}
 				if it.Err == nil && queried == 0 {
 					ri.probe("served-from-cache")
-					// must be some value that was stored before (expired or not, it was a success once)
+					// "until expiry": what comes out of the cache must be a success stored at most one
+					// expiry period before this call began (the instant of expiry itself is don't-care)
+					found := false
+					for _, a := range acceptable {
+						if a == val {
+							found = true
+						}
+					}
+					if !found {
+						vs = append(vs, Violation{Rule: "C18.stale", Detail: fmt.Sprintf("%s was served %q from the cache without querying, but no success stored within the last %v has that value (unexpired stores: %v): an expired entry was returned", who, val, ttl, acceptable), Facts: facts("family", family, "kind", "expired-served")})
+					}
 				}
 				if k > 0 && time.Duration(cs.C.GapUs)*time.Microsecond >= ttl {
 					ri.probe("entry-expired-between-calls")
